@@ -121,7 +121,42 @@ var c17Markers = []string{"/gpkg-1\x00", "x/gpkg-1\x00", "Standard Jet DB", "Sta
 
 func c17Gen(t *rapid.T) c17Case {
 	var x []byte
-	switch rapid.IntRange(0, 9).Draw(t, "k") {
+	switch rapid.IntRange(0, 11).Draw(t, "k") {
+	case 11: // fixed-size packets: a sync byte every 188 (or 192 / 204) bytes, good for a while, then one byte lost
+		size := rapid.SampledFrom([]int{188, 188, 192, 204}).Draw(t, "pktsize")
+		good := rapid.IntRange(3, 25).Draw(t, "goodpkts")
+		sync := rapid.SampledFrom([]byte{0x47, 0x47, 'G'}).Draw(t, "sync")
+		for i := 0; i < good+6; i++ {
+			pkt := make([]byte, size)
+			pkt[0] = sync
+			pkt[1], pkt[2] = byte(rapid.IntRange(0, 0x1f).Draw(t, "pidhi")), byte(i)
+			pkt[3] = 0x10 | byte(i&0x0f)
+			if rapid.Bool().Draw(t, "textpayload") {
+				copy(pkt[4:], strings.Repeat("A 1 record of text ", 12))
+			}
+			if i == good {
+				pkt = pkt[1:] // the byte that was lost
+			}
+			x = append(x, pkt...)
+		}
+	case 10: // anything, then a 128-byte ID3v1 block ("TAG", title, artist, album, a four-digit year, comment, genre)
+		x = vfGenAnyInput(t)
+		if len(x) > 420 {
+			x = x[:420]
+		}
+		if rapid.Bool().Draw(t, "zeros") {
+			x = make([]byte, rapid.IntRange(0, 420).Draw(t, "zn"))
+		}
+		tag := make([]byte, 128)
+		copy(tag, "TAG")
+		copy(tag[3:], "Title of the song")
+		copy(tag[33:], "Artist")
+		copy(tag[63:], "Album")
+		copy(tag[93:], rapid.SampledFrom([]string{"1999", "2024", "0000", "19x9", "\x00\x00\x00\x00"}).Draw(t, "year"))
+		copy(tag[97:], "comment")
+		tag[127] = byte(rapid.IntRange(0, 255).Draw(t, "genre"))
+		x = append(x, tag...)
+		x = append(x, rapid.SampledFrom([]string{"", "\x00", "trailing bytes after the tag"}).Draw(t, "aftertag")...)
 	case 9: // EBML header (Matroska / WebM) assembled from elements: Void padding of any size (it may hold
 		// stale bytes that look like a DocType element), the DocType before or after it
 		vint := func(n int) []byte {
